@@ -62,7 +62,7 @@ def gen_event(rng, names, ts_pool, uid):
     if name in RESOURCE:
         # shape the Parquet path needs: flat numeric data (process_stats: a list of per-process dicts)
         if name == "process_stats":
-            ev["data"] = {"processes": [{"name": f"j{k}", "rss": 1024 * (k + uid), "cpu_percent": 12.5} for k in range(rng.randint(1, 2))]}
+            ev["data"] = {"processes": [{"name": f"j{k}", "rss": 1024 * (k + uid), "cpu_percent": 12.5} for k in range(rng.randint(1, 3))]}
         else:
             ev["data"] = {"cpu_percent": 12.5 * (uid % 8) + 0.25, "count": uid}
         ev["clock"] = ts in CLOCK
@@ -256,6 +256,7 @@ class EventsSuite(Suite):
 
     def __init__(self):
         self._order = {}
+        self._pq = {}
 
     # ------------------------------------------------------------------ generators
     def cases(self, rng, tier, prop):
@@ -364,6 +365,15 @@ class EventsSuite(Suite):
                 first = [[n, [self._out_event(e) for e in s1.list_events(n)]] for n in names1]
                 absent = [self._out_event(e) for e in s1.list_events(case["absent"])]
                 parquet = sorted(p.stem for p in (out / "events").iterdir() if p.suffix == ".parquet")
+                # contents of the per-process table (side channel for the oracle; the model compares table names only)
+                try:
+                    import pandas as pd
+                    pq = out / "events" / "process_stats.parquet"
+                    if pq.exists():
+                        df = pd.read_parquet(pq)
+                        self._pq[key] = sorted([str(r["name"]), int(r["rss"])] for _, r in df.iterrows()) if "name" in df.columns else None
+                except Exception as e:  # noqa
+                    self._pq[key] = f"unreadable: {type(e).__name__}"
             for f in case.get("later", []):  # not under quiet(): it disables logging, i.e. log_event
                 self._write(out / f["file"], f["events"])
             order2 = [p.name for p in probe._iter_event_files()]
@@ -418,6 +428,13 @@ class EventsSuite(Suite):
             v.append(Violation("C20", "events.names", f"names in the summary {sorted(got)} differ from the names written {sorted(exp_json)}"))
         if result["parquet"] != sorted(n for n in exp if n in RESOURCE):
             v.append(Violation("C20", "events.parquet", f"resource-stat tables {result['parquet']} differ from the resource-stat names written"))
+        if "process_stats" in exp and canon(case) in self._pq:
+            want = sorted([str(pr["name"]), int(pr["rss"])] for f in written for e in f["events"] if e["name"] == "process_stats"
+                          for pr in e.get("data", {}).get("processes", []))
+            have = self._pq[canon(case)]
+            if have != want:
+                v.append(Violation("C20", "events.process_rows", f"per-process samples in process_stats.parquet {have} differ from the samples "
+                                   f"written {want} (every process of every process_stats event, exactly once, fields intact)"))
         order = self._order.get(canon(case), (None, None))[0]
         rank = {n: i for i, n in enumerate(order)} if order else None
         for n in sorted(exp_json):
